@@ -4,7 +4,8 @@
 # which is shared between worktrees).
 #   tools/eval_seed.sh <dir with patch.diff demo.py meta.json> <label>
 # 1. demo on the untouched tree (must pass), 2. apply the patch, demo again
-# (must fail), 3. every quick check against the changed tree, 4. store the
+# (must fail), 3. every quick check AS COMMITTED against the changed tree
+# (tools/first_eval.sh), 4. store the
 # artefacts under /verif/seeded/<label>/ and remove the worktree.
 SRC=$1; LABEL=$2
 set -u
@@ -13,12 +14,12 @@ git -C /repo worktree remove --force "$EV" >/dev/null 2>&1
 git -C /repo worktree add -q --detach "$EV" HEAD || exit 2
 mkdir -p "$EV/SEED"; cp "$SRC"/patch.diff "$SRC"/demo.py "$SRC"/meta.json "$EV/SEED/"
 # demos written by the agents may refer to their own worktree path
-sed -i "s#/tmp/seed/w[t234]-[A-Za-z0-9_-]*#$EV#g" "$EV/SEED/demo.py"
+sed -i "s#/tmp/seed/w[t2345]-[A-Za-z0-9_-]*#$EV#g" "$EV/SEED/demo.py"
 cd "$EV"
 echo "== demo WITHOUT change"
 PYTHONPATH=$EV timeout 1200 /venv/bin/python SEED/demo.py > /dev/shm/demo_without_$LABEL.log 2>&1; RC_WITHOUT=$?
 tail -2 /dev/shm/demo_without_$LABEL.log | cut -c1-220
-sed "s#/tmp/seed/w[t234]-[A-Za-z0-9_-]*/##g" SEED/patch.diff > /dev/shm/patch_$LABEL.diff
+sed "s#/tmp/seed/w[t2345]-[A-Za-z0-9_-]*/##g" SEED/patch.diff > /dev/shm/patch_$LABEL.diff
 git apply /dev/shm/patch_$LABEL.diff || { echo "PATCH DOES NOT APPLY"; git -C /repo worktree remove --force "$EV"; exit 2; }
 git diff --stat -- qkeras | tail -2
 /venv/bin/python -m compileall -q qkeras >/dev/null 2>&1 || echo "COMPILE ERROR"
@@ -26,18 +27,11 @@ echo "== demo WITH change"
 PYTHONPATH=$EV timeout 1200 /venv/bin/python SEED/demo.py > /dev/shm/demo_with_$LABEL.log 2>&1; RC_WITH=$?
 tail -2 /dev/shm/demo_with_$LABEL.log | cut -c1-220
 echo "demo rc with=$RC_WITH without=$RC_WITHOUT"
-echo "== checks against the changed tree"
-cd /verif
-HITS=""
-for i in $(seq -w 1 20); do
-  OUT=$(QKERAS_REPO=$EV QKSTAT_EVIDENCE_DIR=/dev/shm/seed-ev-$LABEL PYTHONHASHSEED=0 timeout 900 /venv/bin/python -m qkstat.check --property C$i --tier quick 2>&1); RC=$?
-  if [ $RC -ne 0 ]; then HITS="$HITS C$i(rc=$RC)"; echo "$OUT" | grep -E "^FINDING|^ANALYSIS-ERROR" | head -2 | cut -c1-330; fi
-done
-echo "REPORTED BY:$HITS"
 mkdir -p /verif/seeded/$LABEL
 cp "$SRC"/demo.py "$SRC"/meta.json /verif/seeded/$LABEL/
 cp /dev/shm/patch_$LABEL.diff /verif/seeded/$LABEL/patch.diff
-echo "{\"demo_rc_with_change\": $RC_WITH, \"demo_rc_without_change\": $RC_WITHOUT, \"reported_by\": \"$HITS\", \"evaluated_in\": \"fresh worktree of /repo HEAD, patch applied with git apply, quick checks run with QKERAS_REPO=<worktree>\"}" > /verif/seeded/$LABEL/eval.json
+echo "{\"demo_rc_with_change\": $RC_WITH, \"demo_rc_without_change\": $RC_WITHOUT, \"reported_by\": \"\", \"evaluated_in\": \"fresh worktree of /repo HEAD, patch applied with git apply; quick checks as committed in /verif (tools/first_eval.sh) run against a scratch copy with the patch\"}" > /verif/seeded/$LABEL/eval.json
 git -C /repo worktree remove --force "$EV"
-rm -rf /dev/shm/seed-ev-$LABEL
+echo "== checks (as committed) against the changed tree"
+/verif/tools/first_eval.sh $LABEL
 /verif/tools/seed_baseline.sh $LABEL
